@@ -65,6 +65,8 @@ const (
 func c19NewNet(seed uint64, params c19NetParams) (*c19Net, error) {
 	n := &c19Net{r: kit.NewRand(seed, 0xC19), params: params, pending: map[string]byte{}}
 	var err error
+	rigVnetMu.Lock()
+	defer rigVnetMu.Unlock()
 	n.router, err = vnet.NewRouter(&vnet.RouterConfig{
 		CIDR: "10.19.0.0/24", MinDelay: params.minDelay, MaxJitter: params.jitter, LoggerFactory: rigNullLoggerFactory{},
 	})
